@@ -357,8 +357,14 @@ func runKernelCfg(tag string, cfg kernelCfg) (out kernelOutcome) {
 	}
 	// warm-up + fault-free baseline: the lab must show its chain before anything is judged
 	ok := false
+	warm := append([]string{}, base...)
+	for i := 0; i+1 < len(warm); i++ {
+		if warm[i] == "-q" && warm[i+1] == "0" {
+			warm[i+1] = "1" // a configuration without path runs still needs a path run to show that the lab works
+		}
+	}
 	for try := 0; try < 6 && !ok; try++ {
-		o := l.cli(base...)
+		o := l.cli(warm...)
 		out.counters["cli_invocations"]++
 		ok = matches(o) == ""
 	}
